@@ -36,6 +36,26 @@ def _nonfinite(draw):
     return s
 
 
+def exhaustive(tier):
+    import itertools
+    for lo, hi, p in ((0.11, 0.19, 1), (3.14, 3.14, 1), (0.0, 1.0, 2), (0.15, 0.15, 1), (-0.05, 0.04, 1), (1e15, 1e15 + 2, 3),
+                      (0.1, 0.30000000000000004, 1), (2.5, 2.5, 0)):
+        for order in itertools.permutations(["min", "max", "precision"]):
+            f = {"t": "float", "min": lo, "max": hi, "precision": p, "order": list(order)}
+            yield {"spec": f}
+            yield {"spec": {"t": "dict", "entries": [{"key": "r", "opt": True, "spec": f}], "relaxed": False}}
+        for order in (["min", "precision"], ["precision", "min"], ["max", "precision"], ["precision", "max"]):
+            f = {"t": "float", "precision": p, "order": order}
+            f[order[0] if order[0] != "precision" else order[1]] = lo
+            yield {"spec": f}
+    for lf in (["min", 3], ["range", 1, 2], ["eq", 2], ["max", 0]):
+        for order in itertools.permutations(["len", "alphabet", "substr"]):
+            yield {"spec": {"t": "str", "len": lf, "alphabet": "ab", "substr": "ba", "order": list(order)}}
+    for order in itertools.permutations(["min", "max"]):
+        yield {"spec": {"t": "int", "min": 3, "max": 3, "order": list(order)}}
+        yield {"spec": {"t": "int", "min": 5, "max": 1, "order": list(order)}}
+
+
 @st.composite
 def _case(draw):
     depth = draw(st.integers(0, 4))
